@@ -68,7 +68,7 @@ fn bases(strtab_base: u64) -> Vec<Base> {
             }
             bi::VBE => push(kind, 0, bi::sample(kind, 1, 0), vec![Field { name: "memory_model", off: 16 + 512 + 27, width: 1, alpha: (0..=255).collect() }]),
             bi::FRAMEBUFFER => {
-                let f = |cap: u32| vec![Field { name: "type", off: 29, width: 1, alpha: (0..=255).collect() }, Field { name: "num_colors", off: 32, width: 2, alpha: { let mut v: Vec<u32> = (0..=cap + 3).collect(); v.push(0xFFFF); v } }];
+                let f = |cap: u32| vec![Field { name: "type", off: 29, width: 1, alpha: (0..=255).collect() }, Field { name: "num_colors", off: 32, width: 2, alpha: { let mut v: Vec<u32> = (0..=cap + 3).collect(); v.extend([0xFF, 0x100, 0x101, 0x5555, 0x5556, 0x7FFF, 0x8000, 0xAAAA, 0xAAAB, 0xFFFE, 0xFFFF]); v } }];
                 push(kind, 0, bi::sample(kind, 1, 2), f(2));
                 push(kind, 1, bi::sample(kind, 1, 0), f(2));
                 push(kind, 2, bi::sample(kind, 1, 1), vec![Field { name: "type", off: 29, width: 1, alpha: (0..=255).collect() }]);
@@ -406,7 +406,7 @@ fn run(ctx: &mut Ctx) {
     let budget = if quick { 1 } else { 2 };
     let all = bases(strtab_base);
     // ---------------- tag level
-    ctx.bound("tag_level", format!("22 kinds + custom, 1-3 well-formed variants each; deviation budget {}: tag size 0..=extent+17 + EDGE32, mmap entry_size / EFI desc_size / ELF entsize 0..=129 + EDGE32, EFI desc_version, palette count 0..=cap+3 + 0xFFFF, framebuffer type byte and VBE memory model all 256 values, RSDPv2 length 0..=60 + EDGE32, ELF num / shndx 0..=5 + EDGE32, raw ELF types; slice = the tag's padded extent, flush-right and flush-left against PROT_NONE guard pages, fills A/B; program = cast + every accessor + Debug, each under catch_unwind", budget));
+    ctx.bound("tag_level", format!("22 kinds + custom, 1-3 well-formed variants each; deviation budget {}: tag size 0..=extent+17 + EDGE32, mmap entry_size / EFI desc_size / ELF entsize 0..=129 + EDGE32, EFI desc_version, palette count 0..=cap+3 + {{0xFF, 0x100, 0x101, 0x5555, 0x5556 (3 x count crosses 2^16), 0x7FFF, 0x8000, 0xAAAA, 0xAAAB (3 x count crosses 2^17), 0xFFFE, 0xFFFF}}, framebuffer type byte and VBE memory model all 256 values, RSDPv2 length 0..=60 + EDGE32, ELF num / shndx 0..=5 + EDGE32, raw ELF types; slice = the tag's padded extent, flush-right and flush-left against PROT_NONE guard pages, fills A/B; program = cast + every accessor + Debug, each under catch_unwind", budget));
     for base in &all {
         enumerate(budget, |ch| {
             let (img, _size, devs) = apply(base, ch);
